@@ -235,6 +235,7 @@ type Aff struct {
 	// LemmaFacts: extra facts valid throughout a function, supplied by reviewed lemmas.
 	LemmaFacts func(a *Aff, fn *ssa.Function) []Con
 	lemmaMemo  map[*ssa.Function][]Con
+	resolvingPhi map[*ssa.Phi]bool
 	hitBusy  int
 	// Equate lets a property identify opaque values (lemmas), e.g. results of a pure helper on the same prefix.
 	Equate func(v ssa.Value) ssa.Value
@@ -244,7 +245,7 @@ func NewAff(p *Prog) *Aff {
 	return &Aff{P: p, names: map[ssa.Value]string{}, lenName: map[ssa.Value]string{}, desc: map[string]string{},
 		symType: map[string]types.Type{}, symLen: map[string]bool{}, memo: map[ssa.Value]*Lin{},
 		loopInv: map[*ssa.Function][]Con{}, loopDone: map[*ssa.Function]bool{}, ens: map[*ssa.Function]*ensures{}, ensBusy: map[*ssa.Function]bool{},
-		factMemo: map[*ssa.BasicBlock][]Con{}, prepared: map[*ssa.Function]bool{}, hdrInv: map[*ssa.BasicBlock][]Con{}, busy: map[*ssa.BasicBlock]bool{}, hdrBusy: map[*ssa.BasicBlock]bool{}, defFacts: map[string][]Con{}, Assume: map[*ssa.Function][]Con{}, lemmaMemo: map[*ssa.Function][]Con{}}
+		factMemo: map[*ssa.BasicBlock][]Con{}, prepared: map[*ssa.Function]bool{}, hdrInv: map[*ssa.BasicBlock][]Con{}, busy: map[*ssa.BasicBlock]bool{}, hdrBusy: map[*ssa.BasicBlock]bool{}, defFacts: map[string][]Con{}, Assume: map[*ssa.Function][]Con{}, lemmaMemo: map[*ssa.Function][]Con{}, resolvingPhi: map[*ssa.Phi]bool{}}
 }
 
 func (a *Aff) fnTag(v ssa.Value) string {
@@ -420,6 +421,45 @@ func (a *Aff) lin(v ssa.Value) *Lin {
 		}
 	}
 	switch x := v.(type) {
+	case *ssa.Phi:
+		// a two-way merge one of whose incoming edges contradicts what is known at its source
+		// (`if want < 0 { want = 0 }` where want >= 2 is known): the value is the other edge's
+		if isInteger(x.Type()) && len(x.Edges) == 2 && !a.resolvingPhi[x] {
+			blk := x.Block()
+			loop := false
+			for _, p := range blk.Preds {
+				if blk.Dominates(p) {
+					loop = true
+				}
+			}
+			if !loop {
+				a.resolvingPhi[x] = true
+				var live []int
+				for i, p := range blk.Preds {
+					dead := false
+					if ifi, ok := lastInstr(p).(*ssa.If); ok && len(p.Succs) == 2 && p.Succs[0] != p.Succs[1] {
+						if cons := a.condCons(ifi.Cond, p.Succs[0] == blk); len(cons) > 0 && a.Prove(p, Con{LinConst(-1)}, cons...) {
+							dead = true
+						}
+					} else if len(p.Preds) == 1 && len(p.Succs) == 1 {
+						// a then-block entered through a branch whose condition is contradicted
+						q := p.Preds[0]
+						if ifi, ok := lastInstr(q).(*ssa.If); ok && len(q.Succs) == 2 && q.Succs[0] != q.Succs[1] {
+							if cons := a.condCons(ifi.Cond, q.Succs[0] == p); len(cons) > 0 && a.Prove(q, Con{LinConst(-1)}, cons...) {
+								dead = true
+							}
+						}
+					}
+					if !dead {
+						live = append(live, i)
+					}
+				}
+				delete(a.resolvingPhi, x)
+				if len(live) == 1 {
+					return a.Lin(x.Edges[live[0]])
+				}
+			}
+		}
 	case *ssa.BinOp:
 		switch x.Op {
 		case token.ADD:
